@@ -273,7 +273,11 @@ fn run_scn(c: &Scn, seed: u64, rep: &mut Report) {
     let small_trailers = rq::encode_section(&[(b"t".to_vec(), b"1".to_vec())], &rq::EncOpts::default());
     if c.h3_server {
         // application response: in the send direction it carries the section under test
-        let mut resp = Msg { status: 200, body: vec![b"ok".to_vec()], ..Default::default() };
+        // the section under test may be an interim or an error response: the limit is the same
+        // for every status (all three digits, so the size is too)
+        let status = if !c.recv && c.kind == Kind::Head { *rng.pick(&[200u16, 200, 103, 100, 404, 500]) } else { 200 };
+        rep.count(&format!("response_status_class[{}xx]", status / 100));
+        let mut resp = Msg { status, body: vec![b"ok".to_vec()], ..Default::default() };
         if !c.recv {
             match c.kind {
                 Kind::Head => resp.headers = extra.clone(),
